@@ -547,3 +547,45 @@ func ZZ_C10_literal_is_fresh() {
 		}
 	}
 }
+
+// ZZ_C10_failed_operation_leaves_containers: "an ill-typed operand yields an
+// error and leaves the container unchanged" - also the containers that share
+// storage with the operand: a failing `+` / `+=` whose earlier elements would
+// have fitted, and an assignment at index len through an expression that
+// cannot be assigned (the automatic append must not have written by then).
+func ZZ_C10_failed_operation_leaves_containers() {
+	v, w, x := zz.Int64(), zz.Int64(), zz.Int64()
+	zz.Assume(zz.And(x != v, x != w))
+	e := env.NewEnv()
+	e.Define("V", v)
+	e.Define("W", w)
+	e.Define("X", x)
+	forms := []struct{ name, src string }{
+		{"typed-append-with-ill-typed-later-element", `a = make([]int64, 2, 4); c = a + [V, W]; r = 0; try { a + [X, "x"] } catch e { r = 1 }; [c[2], c[3], r]`},
+		{"typed-append-assign-with-ill-typed-later-element", `a = make([]int64, 2, 4); c = a + [V, W]; r = 0; try { a += [X, "x"] } catch e { r = 1 }; [c[2], c[3], r]`},
+		{"typed-append-with-nil-later-element", `a = make([]int64, 2, 4); c = a + [V, W]; r = 0; try { a + [X, nil] } catch e { r = 1 }; [c[2], c[3], r]`},
+		{"nested-typed-append-with-ill-typed-later-element", `a = make([][]int64, 1, 3); c = a + [[V], [W]]; r = 0; try { a + [[X], ["x"]] } catch e { r = 1 }; [c[1][0], c[2][0], r]`},
+		{"append-at-len-through-a-slice-expression", `a = [0, V, W]; r = 0; try { a[0:1][1] = X } catch e { r = 1 }; [a[1], a[2], r]`},
+		{"append-at-len-through-a-call-result", `a = [0, V, W]; f = func() { return a[:1] }; r = 0; try { f()[1] = X } catch e { r = 1 }; [a[1], a[2], r]`},
+		{"append-at-len-through-a-parenthesised-slice", `a = [0, V, W]; r = 0; try { (a[:1])[1] = X } catch e { r = 1 }; [a[1], a[2], r]`},
+		{"append-at-len-of-a-typed-slice-expression", `a = make([]int64, 3); a[1] = V; a[2] = W; r = 0; try { a[0:1][1] = X } catch e { r = 1 }; [a[1], a[2], r]`},
+	}
+	f := forms[zz.Choose(len(forms))]
+	res, err := Execute(e, &Options{Debug: false}, f.src)
+	zz.Assertf(err == nil, "C10.failed-operation/runs/"+f.name, f.src)
+	if err != nil {
+		return
+	}
+	l, ok := res.([]interface{})
+	zz.Assertf(ok && len(l) == 3, "C10.failed-operation/result-shape/"+f.name, f.src)
+	if !ok || len(l) != 3 {
+		return
+	}
+	a, okA := l[0].(int64)
+	b, okB := l[1].(int64)
+	r, _ := l[2].(int64)
+	if r == 1 {
+		// the operation failed: nothing it shares storage with has changed
+		zz.Assertf(okA && okB && a == v && b == w, "C10.failed-operation/an-error-leaves-every-container-unchanged/"+f.name, f.src)
+	}
+}
